@@ -37,6 +37,18 @@
 //                  STORAGE
 //
 
+/// The state to record after the driver's `set()` answered `reported`.
+/// `set()` arms or disarms a device, but only `start()` makes it run: a driver
+/// that answers Running for a device that was not started is not believed,
+/// otherwise `stop()`/`append()` would reach a device that never saw `start()`.
+static enum DeviceState
+state_after_set(enum DeviceState current, enum DeviceState reported)
+{
+    if (reported == DeviceState_Running && current != DeviceState_Running)
+        return DeviceState_AwaitingConfiguration;
+    return reported;
+}
+
 int
 storage_validate(const struct DeviceManager* system,
                  const struct DeviceIdentifier* identifier,
@@ -60,7 +72,7 @@ storage_validate(const struct DeviceManager* system,
         self = containerof(device, struct Storage, device);
     }
     if (self) {
-        self->state = self->set(self, settings);
+        self->state = state_after_set(self->state, self->set(self, settings));
         CHECK(self->state == DeviceState_Armed);
     }
 Finalize:
@@ -111,7 +123,7 @@ storage_set(struct Storage* self, const struct StorageProperties* settings)
     CHECK(self);
     CHECK(settings);
 
-    self->state = self->set(self, settings);
+    self->state = state_after_set(self->state, self->set(self, settings));
     EXPECT(DeviceState_Armed == self->state,
            "Expected Armed. Got %s.",
            device_state_as_string(self->state));
